@@ -323,7 +323,12 @@ macro_rules! impl_rank_small_sel {
                     // with value given by the number of bits. Thus, we must
                     // handle the case in which inv_idx is the the last
                     // inventory entry as a special case.
-                    last_block_idx = self.len().div_ceil(Self::BLOCK_BIT_SIZE);
+                    // We also clip the span to the upper block containing the
+                    // rank, as the absolute counters restart at each upper block.
+                    last_block_idx = Ord::min(
+                        self.len().div_ceil(Self::BLOCK_BIT_SIZE),
+                        (upper_block_idx + 1) * (Self::SUPERBLOCK_BIT_SIZE / Self::BLOCK_BIT_SIZE),
+                    );
                 }
 
                 debug_assert!(block_idx < counts.len());
